@@ -155,6 +155,15 @@ def refusal_cases() -> list[tuple[str, str]]:
     systems = {"cart1": CoordinateSystem(S.CARTESIAN), "cart2": CoordinateSystem(S.CARTESIAN),
         "cyl1": CoordinateSystem(S.CYLINDRICAL), "cyl2": CoordinateSystem(S.CYLINDRICAL),
         "sph1": CoordinateSystem(S.SPHERICAL), "sph2": CoordinateSystem(S.SPHERICAL)}
+    # wrappers of different kinds around one shared inner sympy system (public `inner` argument),
+    # and systems derived from cart1: all different coordinate systems
+    from symplyphysics.core.coordinate_systems.coordinate_systems import coordinates_transform
+    inner = systems["cart2"].coord_system
+    systems.update({"cartS": CoordinateSystem(S.CARTESIAN, inner), "cylS": CoordinateSystem(
+        S.CYLINDRICAL, inner), "sphS": CoordinateSystem(S.SPHERICAL, inner), "cylT":
+        coordinates_transform(systems["cart1"], S.CYLINDRICAL), "cartT": coordinates_transform(
+        systems["cyl1"], S.CARTESIAN)})
+    shared = {"cart2", "cartS", "cylS", "sphS"}
     binary = {"add": add_cartesian_vectors, "subtract": subtract_cartesian_vectors, "dot":
         dot_vectors, "cross": cross_cartesian_vectors, "project": project_vector, "reject":
         reject_cartesian_vector, "equal": equal_vectors}
@@ -166,6 +175,8 @@ def refusal_cases() -> list[tuple[str, str]]:
             for fname, fn in binary.items():
                 same = ca is cb
                 cart = sa.startswith("cart")
+                if not same and sa in shared and sb in shared and sa[:3] == sb[:3]:
+                    continue  # two wrappers of one kind around one inner system: left open
                 must_refuse = (not same) or (fname in cart_only and not cart)
                 try:
                     fn(A, B)
